@@ -140,6 +140,27 @@ def build(items, root=dict, inner=dict):
     return tree
 
 
+def share(tree):
+    """make equal branches under different paths ONE object (d = {...}; t = {'a': d, 'b': d}); returns how many were merged"""
+    import json as _json
+    seen = {}
+    merged = [0]
+
+    def walk(node):
+        for k in list(dict.keys(node)):
+            v = dict.__getitem__(node, k)
+            if isinstance(v, dict):
+                walk(v)
+                key = _json.dumps(plain(v), sort_keys=True, default=repr)
+                if key in seen and seen[key] is not v:
+                    dict.__setitem__(node, k, seen[key])
+                    merged[0] += 1
+                else:
+                    seen[key] = v
+    walk(tree)
+    return merged[0]
+
+
 def plain(x):
     """any dict instance -> plain dict, recursively (leaves as they are)"""
     if isinstance(x, dict):
@@ -444,6 +465,18 @@ def check_pairs(case):
 
     for key in layouts:
         fresh_t(key)
+    # layout H: t as plain dicts in which equal branches are one shared object; the merge must still treat the two paths separately
+    probe = build(titems)
+    has_shared = share(probe) > 0
+
+    def fresh_h():
+        t = build(titems)
+        share(t)
+        ts['H'] = (t, snapshot(t))
+        return ts['H']
+    if has_shared:
+        layouts['H'] = (dict, dict)
+        fresh_h()
     ulayouts = {'A': (dict, dict), 'B': (dictattr, dict), 'C': (Dict, Dict), 'S': (_Sub, dict)}
 
     for ui, uitems in enumerate(us):
@@ -461,6 +494,8 @@ def check_pairs(case):
             ops = [('tree_update', 'A', 'A')]
             if all_ops:
                 ops.append(('items_to_tree', 'C', 'C'))
+            if has_shared:
+                ops.append(('tree_update', 'H', 'A'))
             if first and all_ops:
                 ops.append(('Dict+', 'B', 'B'))
                 if ui % 3 == 0:
@@ -485,13 +520,13 @@ def check_pairs(case):
                     out.call()
                 except Exception as e:
                     out.viol('raised', '%s raised %s: %s' % (label(), type(e).__name__, e), op=op, exc=type(e).__name__, u=uk)
-                    fresh_t(tk)
+                    fresh_h() if tk == 'H' else fresh_t(tk)
                     del ureal[uk]
                     continue
                 if not isinstance(r, dict) or plain(r) != expect:
                     out.viol('merge-differs', '%s = %s, expected %s' % (label(), show(plain(r)), show(expect)), op=op, cls=c.rstrip('+'))
                 if _mutated(out, tsnap, 't', op, label):
-                    fresh_t(tk)
+                    fresh_h() if tk == 'H' else fresh_t(tk)
                 if _mutated(out, usnap, 'u', op, label):
                     del ureal[uk]
             # tree_setitem on a copy, single-path updates only
